@@ -45,7 +45,7 @@ type ICETransport struct {
 // GetSelectedCandidatePair returns the selected candidate pair on which packets are sent
 // if there is no selected pair nil is returned.
 func (t *ICETransport) GetSelectedCandidatePair() (*ICECandidatePair, error) {
-	agent := t.gatherer.getAgent()
+	agent := t.currentGatherer().getAgent()
 	if agent == nil {
 		return nil, nil //nolint:nilnil
 	}
@@ -71,7 +71,15 @@ func (t *ICETransport) GetSelectedCandidatePair() (*ICECandidatePair, error) {
 // GetSelectedCandidatePairStats returns the selected candidate pair stats on which packets are sent
 // if there is no selected pair empty stats, false is returned to indicate stats not available.
 func (t *ICETransport) GetSelectedCandidatePairStats() (ICECandidatePairStats, bool) {
-	return t.gatherer.getSelectedCandidatePairStats()
+	return t.currentGatherer().getSelectedCandidatePairStats()
+}
+
+// currentGatherer reads t.gatherer, which StartContext may (re)assign, under the lock.
+func (t *ICETransport) currentGatherer() *ICEGatherer {
+	t.lock.RLock()
+	defer t.lock.RUnlock()
+
+	return t.gatherer
 }
 
 // NewICETransport creates a new NewICETransport.
@@ -375,11 +383,15 @@ func (t *ICETransport) State() ICETransportState {
 // GetLocalParameters returns an IceParameters object which provides information
 // uniquely identifying the local peer for the duration of the ICE session.
 func (t *ICETransport) GetLocalParameters() (ICEParameters, error) {
-	if err := t.ensureGatherer(); err != nil {
+	t.lock.RLock()
+	err := t.ensureGatherer()
+	gatherer := t.gatherer
+	t.lock.RUnlock()
+	if err != nil {
 		return ICEParameters{}, err
 	}
 
-	return t.gatherer.GetLocalParameters()
+	return gatherer.GetLocalParameters()
 }
 
 // GetRemoteParameters returns an IceParameters object which provides information
